@@ -12,7 +12,7 @@ from ..derivcheck import bucket_of, key_of, primal
 from ..engine import Prop, Test
 from ..refs import symbolic as S
 from ..templates import TEMPLATES
-from ..templates.core import instantiate, namespaces
+from ..templates.core import binary_complex_capable, instantiate, namespaces
 
 RULE = (
     "(a) every real template case at a generic point, second order: phi(x) = <g, f(x)>; the Hessian-vector product H u by "
@@ -76,6 +76,8 @@ def second_order_check(phi_ag, phi_np, x, xa, vseed, h0, sample, bucket, key, la
     vals = {}
     for k, r in returned.items():
         try:
+            if onp.iscomplexobj(r) and not onp.iscomplexobj(xa):
+                return fail("wrong_kind", f"{k} returned a complex second derivative for a real argument", bucket("wrong_kind"), sample=sample)
             ra = onp.asarray(r, dtype=float)
         except Exception as e:
             return fail("wrong_kind", f"{k} returned {type(r).__name__}: {e}", bucket("wrong_kind"), sample=sample)
@@ -169,6 +171,60 @@ def _body(tdef, case):
         return fail("wrong_value", f"make_jvp_reversemode (derivative of the VJP at a zero cotangent) gives {t.tolist()!r:.120} but J v = {num.tolist()!r:.120}",
                     bucket_of(inst, "2nd", "jvp_reversemode"), sample=sample)
     return out
+
+
+def _body_mixed(tdef, case):
+    """Second order with operands of mixed kind: the differentiated argument is REAL, its partners may be complex, and when the same
+    value sits in two positions the second one is a complex multiple of it (both operands depend on the input, only one is complex)."""
+    call = tdef.draw(case)
+    inst = instantiate(case, call, allow_complex=True, force_complex=True)
+    pos = (inst.argsel,) if isinstance(inst.argsel, int) else inst.argsel
+    for i in pos:  # the differentiated value itself stays real
+        if onp.iscomplexobj(inst.xs[i]):
+            inst.xs[i] = onp.real(inst.xs[i]) if isinstance(inst.xs[i], onp.ndarray) else float(onp.real(inst.xs[i]))
+    entangle = isinstance(inst.argsel, tuple)
+    others = [i for i in range(len(inst.xs)) if i not in pos]
+    if not entangle and others and not any(onp.iscomplexobj(inst.xs[i]) for i in others):
+        i = others[0]  # the drawn mask made only the differentiated argument complex: give its first partner an imaginary part instead
+        im = values.generic(inst.vseed, [onp.shape(inst.xs[i])], -1.5, 1.5, stream=7, avoid=(0.0,), margin=0.3)[0][0]
+        inst.xs[i] = inst.xs[i] + 1j * (im if onp.ndim(inst.xs[i]) else complex(im).real)
+    cfac = 0.8 + 0.6j
+    # partners that depend on the input too: each partner operand scaled by a complex scalar function of x
+    coupled = bool(others) and case.bool()
+    NP, AG = namespaces()
+    a0 = pos[0]
+
+    def mk(ns):
+        def f(x):
+            args = list(inst.xs)
+            args[a0] = x
+            if entangle:
+                args[pos[1]] = x * cfac
+            if coupled:
+                m = 1.0 + (0.3 + 0.2j) * ns.mean(x)
+                for i in others:
+                    args[i] = args[i] * m
+            return inst.call.fn(ns, *args)
+        return f
+
+    f_np, f_ag = mk(NP), mk(AG)
+    sample = dict(inst.describe(), entangled=entangle, partners_depend_on_input=coupled)
+    try:
+        y0a = onp.asarray(f_np(inst.xs[a0]))
+    except Exception as e:
+        return Outcome("numpy_rejects", detail=str(e)[:100], sample=sample)
+    if y0a.dtype.kind not in "fc" or not onp.all(onp.isfinite(y0a)) or y0a.size == 0:
+        return Outcome("numpy_rejects", detail="non-float / non-finite / empty primal", sample=sample)
+    if not (entangle or any(onp.iscomplexobj(a_) for i, a_ in enumerate(inst.xs) if i not in pos)):
+        return Outcome("numpy_rejects", detail="no complex partner", sample=sample)
+    g = values.cdirection(inst.vseed, y0a.shape, 53)
+    psi = lambda y: y + 0.5 * y * y
+    phi_np = lambda x: onp.real(onp.sum(g * psi(f_np(x))))
+    phi_ag = lambda x: AG.real(AG.sum(g * psi(f_ag(x))))
+    case.features.update(entangled=entangle, coupled=coupled)
+    x = inst.xs[a0]
+    return second_order_check(phi_ag, phi_np, x, onp.asarray(x), inst.vseed, inst.h0, sample,
+                              lambda kind: bucket_of(inst, "2nd_mixed", kind), key_of(inst, "2nd_mixed" + ("_coupled" if coupled else "")))
 
 
 def _prog_body(case):
@@ -412,6 +468,8 @@ def tests():
     out = []
     for name, t in sorted(TEMPLATES.items()):
         out.append(Test("hvp:" + name, partial(_body, t), quick=50 * t.weight, thorough=400 * t.weight, shard_size=100))
+        if binary_complex_capable(t):
+            out.append(Test("hvpm:" + name, partial(_body_mixed, t), quick=30 * t.weight, thorough=250 * t.weight, shard_size=100))
     out.append(Test("hvp:programs", _prog_body, quick=400, thorough=6000, shard_size=100))
     out.append(Test("mixed_partials", mixed_body, quick=400, thorough=3000, shard_size=100))
     out.append(Test("zero_entries", zero_entries_body, quick=1500, thorough=10000, shard_size=150))
